@@ -25,7 +25,11 @@ MANIFEST = {
             "hypothesis; the Bech32 text layer of SLIP-32 is an abstract codec in the theorems and a BIP-173 reference "
             "implementation in the correspondence run. F12 (SLIP-32 short payload -> IndexError) has been repaired in /repo "
             "(now ValueError); the model follows the repaired code and proves that only ValueError / Bech32 errors escape. "
-            "Open finding C05-KHOLAW-ZERO-SCALAR: a Kholaw private key with a zero scalar is rejected with a bare ValueError.",
+            "Open finding C05-KHOLAW-ZERO-SCALAR: a Kholaw private key with a zero scalar is rejected with a bare ValueError. "
+            "LINKED: the slip32_*_concrete theorems instantiate SLIP-32 on the Bech32 model of C10 (no codec hypothesis, no oracle "
+            "at all); the abstract law 'decode(encode d) = d for every HRP' is false of the real codec (upper-case / empty HRP), the "
+            "concrete round trips carry the premise 'HRP well-formed', discharged by computation for xpub/xprv; the link.slip32c_* "
+            "entries run SLIP-32 entirely inside the extracted model.",
     "technique": "Coq proof (list slicing / fixed-width integer lemmas on top of the Base58 canonicity proofs) + "
                  "generated-constant obligations + extracted-model differential run + direct spec recomputation",
     "ref": "7/C05",
@@ -299,6 +303,33 @@ def direct_slip32(kind):
     return chk
 
 
+def _hrp_wf(h):
+    """Lemmas/Bech32.v hrp_enc_ok: non-empty, printable ASCII 33..126, no upper-case letter"""
+    return len(h) > 0 and all(33 <= ord(c) <= 126 and not ("A" <= c <= "Z") for c in h)
+
+
+def direct_slip32c(kind):
+    """The concrete theorems' statement on the implementation: for a WELL-FORMED HRP (the premise the link found
+    necessary) layout and round trip; for any HRP the layout only (an ill-formed HRP is encoded and then refused:
+    Props/C05.v slip32_law_false_of_codec)."""
+    base = direct_slip32(kind)
+
+    def chk(a):
+        hpub, hpriv = a[0], a[1]
+        if _hrp_wf(hpriv if kind == "priv" else hpub):
+            return base(a)
+        try:
+            s = (impl_slip32_ser_priv if kind == "priv" else impl_slip32_ser_pub)(a)
+        except Exception:  # noqa
+            return None
+        path, cc, k = a[2], a[3], a[4]
+        payload = bytes([len(path)]) + b"".join(x.to_bytes(4, "big") for x in path) + cc + (b"\0" + k if kind == "priv" else k)
+        if s != ref.bech32_enc(hpriv if kind == "priv" else hpub, payload).str():
+            return "SLIP-32 layout differs: %s" % s
+        return None
+    return chk
+
+
 # ------------------------------------------------------------------ known finding (see findings.d/C05.json)
 
 def _kholaw_degenerate_key(raw):
@@ -437,6 +468,10 @@ FUNCS = {
     "slip32_ser_priv": Func(model=_m("slip32_ser_priv"), impl=impl_slip32_ser_priv, direct=direct_slip32("priv")),
     "slip32_ser_pub": Func(model=_m("slip32_ser_pub"), impl=impl_slip32_ser_pub, direct=direct_slip32("pub")),
     "slip32_deserialize": Func(model=_m("slip32_deserialize"), impl=impl_slip32_deser),
+    # linked: SLIP-32 entirely inside the model, on the Bech32 model of C10 (Extract/Api_link.v) -- no Bech32 oracle
+    "slip32c_ser_priv": Func(model=_m("link.slip32c_ser_priv"), impl=impl_slip32_ser_priv, direct=direct_slip32c("priv")),
+    "slip32c_ser_pub": Func(model=_m("link.slip32c_ser_pub"), impl=impl_slip32_ser_pub, direct=direct_slip32c("pub")),
+    "slip32c_deserialize": Func(model=_m("link.slip32c_deserialize"), impl=impl_slip32_deser),
 }
 
 
@@ -652,9 +687,68 @@ def gen_coins(ctx):
                         "xprv/xpub carry the coin's version bytes and parse back identically (direct check)")
 
 
+def gen_link(ctx):
+    """SLIP-32 with the Bech32 layer inside the model (Model/LinkSlip32.v on Model/Bech32.v): the theorems
+    slip32_*_concrete of Props/C05.v are about exactly these functions.  Well-formed and ill-formed net-version
+    strings (upper case, empty, blank: the HRPs for which the abstract codec law is false), damaged strings at
+    text and payload level."""
+    rng = ctx.rng
+    std = ["xpub", "xprv"]
+    hrps = [std, std, std, std, ["ypub", "yprv"], ["zpub", "zprv"], ["xpub", "xpubx"], ["ab", "ab"], ["a", "b"],
+            ["XPUB", "XPRV"], ["Xpub", "xprv"], ["", "xprv"], ["xpub", ""], ["x b", "xprv"], ["xp1ub", "xp1rv"],
+            ["x\u212aub", "xprv"], ["tpub~", "tprv~"]]
+    valid = []
+    for _ in range(ctx.n(110, 1500)):
+        L = rng.choice([0, 0, 1, 2, 3, 5, 10, 63, 255, 256])
+        path = [rng.choice([0, 1, 2**31, 2**32 - 1, rng.randrange(2**32)]) for _ in range(L)]
+        cc = rng.choice([rb(rng, 32), rb(rng, 32), bytes(32), b"\0\0" + rb(rng, 30), rb(rng, 31), rb(rng, 33)])
+        hp = rng.choice(hrps)
+        raw = rng.choice([rb(rng, 32), rb(rng, 32), b"\0" * 4 + rb(rng, 28), rb(rng, 64), b"", rb(rng, 1)])
+        r = ctx.run("slip32c_ser_priv", hp + [path, cc, raw], "link")
+        if r[1] and r[1][0] == "ok":
+            valid.append((hp, r[1][1], "priv"))
+        pk = rng.choice([b"\x02" + rb(rng, 32), b"\x03" + rb(rng, 32), b"\0" + rb(rng, 32), b"", rb(rng, 5)])
+        r = ctx.run("slip32c_ser_pub", hp + [path, cc, pk], "link")
+        if r[1] and r[1][0] == "ok":
+            valid.append((hp, r[1][1], "pub"))
+    for (hp, s, kind) in valid:
+        ctx.run("slip32c_deserialize", hp + [s], "link-valid")
+    for _ in range(ctx.n(260, 4000)):
+        hp, s, kind = rng.choice(valid)
+        hrp = hp[1] if kind == "priv" else hp[0]
+        k = rng.randrange(8)
+        if k == 0:
+            t = list(s)
+            j = rng.randrange(len(t))
+            t[j] = rng.choice("qpzry9x8gf2tvdw0s3jn54khce6mua7lbio1B K\u212a")
+            ctx.run("slip32c_deserialize", hp + ["".join(t)], "link-text-damage")
+        elif k == 1:
+            ctx.run("slip32c_deserialize", hp + [s.upper()], "link-uppercase")
+        elif k == 2:
+            ctx.run("slip32c_deserialize", [hp[1], hp[0], s], "link-swapped-hrp")
+        elif k == 3:
+            ctx.run("slip32c_deserialize", hp + [s[:rng.randrange(len(s))]], "link-text-truncated")
+        elif k == 4:
+            ctx.run("slip32c_deserialize", std + [s], "link-std-versions")
+        else:
+            dec = ref.bech32_dec(hrp, s)
+            if dec[0] != 0:
+                continue
+            payload = dec[1]
+            if k == 5 and payload:
+                j = rng.randrange(len(payload))
+                payload = payload[:j] + bytes([rng.randrange(256)]) + payload[j + 1:]
+            elif k == 6:
+                payload = payload[:rng.randrange(0, len(payload) + 1)]
+            else:
+                payload = payload + rb(rng, rng.randrange(1, 8))
+            ctx.run("slip32c_deserialize", hp + [ref.bech32_enc(hrp, payload).str()], "link-payload-damage")
+
+
 def generate(ctx):
     gen_coins(ctx)
     valid = gen_fields(ctx)
     corruptions(ctx, valid)
     gen_kholaw_degenerate(ctx)
     gen_slip32(ctx)
+    gen_link(ctx)
